@@ -74,7 +74,20 @@ pub fn one(out: &mut Out, map: &HashMap<Vec<u8>, String>, label: &[u8]) {
     }
 }
 
-pub fn generate(out: &mut Out, thorough: bool, seed: u64) {
+pub fn replay(toks: &[&str], out: &mut Out) -> bool {
+    if toks[0] != "label" || toks.len() != 2 {
+        return false;
+    }
+    let labels = load_spec_labels();
+    let map = labels.iter().cloned().collect();
+    one(out, &map, &unhex(toks[1]));
+    true
+}
+
+pub fn generate(prop: &str, out: &mut Out, thorough: bool, seed: u64) -> bool {
+    if prop != "C13" {
+        return false;
+    }
     let labels = load_spec_labels();
     let map: HashMap<Vec<u8>, String> = labels.iter().cloned().collect();
     let mut rng = Rng::new(seed ^ 0xC13);
@@ -215,4 +228,5 @@ pub fn generate(out: &mut Out, thorough: bool, seed: u64) {
         }
         one(out, &map, &v);
     }
+    true
 }
